@@ -242,7 +242,8 @@ Section Trace.
   Variable nlev : nat.
 
   (* SyncModel.sync_loop with the events it issues; `autosave pos` = an autosave follows stripe pos
-     (sync.c:1302-1340: the size-based rule, or --test-force-autosave-at).  A stop request honoured after a stripe
+     (sync.c: the size-based rule, or --test-force-autosave-at): since the repair 6a618a2 of F-C07-autosave-writers-not-drained
+     it is io_stop (every queued parity write completes, in every io mode), parity_sync of every level, state_write, io_start.  A stop request honoured after a stripe
      (state_progress, sync.c:1295) precedes the autosave test. *)
   Fixpoint sync_events (o : sopts) (now : N) (fs : list (option fsdisk)) (faults : nat -> list (option rd))
            (autosave : nat -> bool) (stripes : list nat) (stop : option nat) (c : content) (par : parity)
@@ -262,7 +263,7 @@ Section Trace.
             let stop' := match stop with Some (S k) => Some k | _ => None end in
             let ev_w := match so_write r with Some v => [MSched pos v] | None => [] end in
             let ev_s := if autosave pos && negb (match stop' with Some O => true | _ => false end)
-                        then [MFsync; MSave (so_content r)] else [] in
+                        then [MDrain; MFsync; MSave (so_content r)] else [] in
             let '(evs, out) := sync_events o now fs faults autosave rest stop' (so_content r) par' ne' ns' ni' in
             (ev_w ++ ev_s ++ evs, out)
         end
